@@ -206,7 +206,7 @@ def rule_sample(ctx: Ctx):
                 return _copy.deepcopy(self.env_[n.id])
             return n
 
-    wrap_ifs = [s for s in ast.walk(ul) if isinstance(s, ast.If)]
+    wrap_ifs = [s for s in ast.walk(ul) if isinstance(s, (ast.If, ast.IfExp))]
     if len(wrap_ifs) != 1:
         ctx.undecided("R-C16-2", f, ul, f"unit loop body contains {len(wrap_ifs)} tests, one wrap test expected (not a verdict)")
         return
@@ -224,6 +224,17 @@ def rule_sample(ctx: Ctx):
                 run_units(st.body if wrapped else st.orelse, wrapped, lenv, adds, tests)
             elif isinstance(st, ast.Expr) and isinstance(st.value, ast.Call) and isinstance(st.value.func, ast.Attribute) and st.value.func.attr == "add":
                 c = _Subst(lenv).visit(_copy.deepcopy(st.value))
+                # the wrap test may be a conditional expression inside the call: `add(a, S1 if wrap else S2, label)`
+                pick = []
+
+                class _Pick(ast.NodeTransformer):
+                    def visit_IfExp(self, n):
+                        self.generic_visit(n)
+                        pick.append(n.test)
+                        return n.body if wrapped else n.orelse
+                if any(wi is x for x in ast.walk(st.value)):
+                    c = _Pick().visit(c)
+                    tests.extend(pick[:1])
                 adds.append((c, st.value))
             else:
                 raise _Shape(norm(st)[:80])
